@@ -212,7 +212,6 @@ fn generate(a: &Args) -> i32 {
             if b.len() > 12 { continue; }
             // the BOM is stripped before the parser sees the text
             let stripped = text.strip_prefix('\u{feff}').unwrap_or(text);
-            let stripped = stripped.strip_prefix('\u{feff}').unwrap_or(stripped);
             let (items, nev, _) = crate::pump::items_tokens(stripped);
             if nev > 2 { sink.count("distinct_nontrivial"); }
             let ans = crate::e2e::run_single(text, &Ty::Any, &cfg);
